@@ -7,6 +7,7 @@ CONSTANTS
   TrigSets = {{},{3},{2,3}}
   MaxNow = 2
   MaxStores = 4
+  Shared = FALSE
 CONSTRAINT Bounded
 INVARIANTS Bound OrderInv HeldNotDead
 PROPERTIES EvictRule OnlyStoreEvicts
